@@ -310,6 +310,24 @@ def resplit(data: bytes, rng: random.Random) -> bytes:
                             # an unrecognised run property
                             x = etree.SubElement(pr, q("noProof"))
                             _ = x
+                        pr2 = r2.find(q("rPr"))
+                        if pr2 is not None and rng.random() < 0.5:
+                            # the same recognised formatting spelled differently in the second piece
+                            # (w:b / w:b w:val="1" / "true" / "on"; another underline style): still the
+                            # same recognised formatting (round-6 seed C06-merge-key-raw-recognised-pairs)
+                            on = ["1", "true", "on"]
+                            for x in pr2:
+                                if not isinstance(x.tag, str):
+                                    continue
+                                loc, v = local(x), x.get(q("val"))
+                                if loc in ("b", "i", "strike", "smallCaps", "caps") and (v is None or v in on):
+                                    nv = rng.choice([c for c in [None] + on if c != v])
+                                    if nv is None:
+                                        del x.attrib[q("val")]
+                                    else:
+                                        x.set(q("val"), nv)
+                                elif loc == "u" and v in ("single", "double", "wave"):
+                                    x.set(q("val"), rng.choice([c for c in ("single", "double", "wave") if c != v]))
                     for h in list(root.iter(q("hyperlink"))):
                         runs = h.findall(q("r"))
                         parent = h.getparent()
